@@ -21,7 +21,7 @@ use ordered_float::OrderedFloat;
 use write_fonts::{OtRound, types::GlyphId16};
 
 use crate::{
-    error::{BadGlyph, Error},
+    error::{BadGlyph, BadGlyphKind, Error},
     ir::{Component, Glyph, GlyphBuilder, GlyphInstance, GlyphOrder, StaticMetadata},
     orchestration::{Context, Flags, IrWork, WorkId},
     propagate_anchors::propagate_all_anchors,
@@ -252,6 +252,27 @@ fn prune_missing_components(context: &Context) {
             instance.components.retain(|c| !missing.contains(&c.base));
         }
         context.glyphs.set(new_glyph);
+    }
+}
+
+/// Fail if any glyph reaches itself through its components.
+///
+/// Everything after this (flattening, decomposition, bounding boxes, maxp depth)
+/// walks the component graph assuming it is acyclic, and would otherwise recurse
+/// or loop forever. Run after [`prune_missing_components`], so that any glyph
+/// without a component depth is on, or leads to, a cycle.
+fn check_for_component_cycles(context: &Context) -> Result<(), BadGlyph> {
+    let glyphs = context.glyphs.all();
+    let glyphs = glyphs
+        .iter()
+        .map(|g| (g.1.name.clone().into_inner(), g.1.as_ref()))
+        .collect();
+    let acyclic: HashSet<_> = fontdrasil::util::depth_sorted_composite_glyphs(&glyphs)
+        .into_iter()
+        .collect();
+    match glyphs.keys().find(|name| !acyclic.contains(*name)) {
+        Some(name) => Err(BadGlyph::new(name.clone(), BadGlyphKind::ComponentCycle)),
+        None => Ok(()),
     }
 }
 
@@ -828,6 +849,7 @@ impl Work<Context, WorkId, Error> for GlyphOrderWork {
         // missing component can't cause its glyph (or its siblings) to be
         // decomposed. See https://github.com/googlefonts/fontc/issues/1858
         prune_missing_components(context);
+        check_for_component_cycles(context)?;
 
         // Propagate anchors from components to composites (if enabled)
         // This must happen BEFORE flattening non-export components, because after
